@@ -2,7 +2,7 @@
 Driver for C16. Trace lines of one case (harness/cmd/verifharness/c16.go):
 
   part <seek|seq> <css> <hlen> <pt>     pt: hex | "-" | gen:<n> (pt[i] = (7i+3) mod 251)
-  fixes eof=<0|1> hdreof=<0|1> seqcut=<0|1>   repairs present in the tree under test (probed)
+  fixes eof=<0|1> hdreof=<0|1> seqcut=<0|1> buf=<0|1>   repairs present in the tree under test (probed)
   mut none | xor <off> <mask> | trunc <n> | append <hex> | swap <i> <j> <first stream byte> | cross-whole | cross-body |
       hdr-segsize <v> <hlen2> | hdr-dek | hdr-version <v> <hlen2> | hdr-keytype <v> <hlen2>
   full <ok|err> <tok>                   "=" (the plaintext), "<k" (its first k bytes), else hex
@@ -88,6 +88,7 @@ def judgeCase (_k : Nat) (lines : List String) : Verdict := Id.run do
   let fix := ((toks.find? (·.head? == some "fixes")).getD []).contains "eof=1"
   let fixHdr := ((toks.find? (·.head? == some "fixes")).getD []).contains "hdreof=1"
   let fixSeq := ((toks.find? (·.head? == some "fixes")).getD []).contains "seqcut=1"
+  let fixBuf := ((toks.find? (·.head? == some "fixes")).getD []).contains "buf=1"
   let base := 4 + hlen
   let streamA := tinkStream toy keyA saltA preA css pt
   let storedA := be32 hlen ++ List.replicate hlen 0x7B ++ streamA
@@ -183,63 +184,78 @@ def judgeCase (_k : Nat) (lines : List String) : Verdict := Id.run do
           if !mutated then vio := vio ++ [("C16.intact-part-failed-to-read", s!"{tag}")]
           else if got != want.take got.length then
             vio := vio ++ [("C16.wrong-bytes-before-the-error", s!"{tag}:{got.length}-bytes-delivered")]
-  -- seek / read sequences on one reader
+  -- seek / read sequences on one reader. The reader of seekable.go is modelled with its state: position, the
+  -- index of the buffered segment, the buffer (`s.plaintext`) and its capacity, and whether the last segment
+  -- has been authenticated. `fixBuf` = the repaired `loadSegment`, which forgets the buffered segment when a
+  -- load fails; the code as it is decrypts into the buffer of the previous segment, `cipher.Open` zeroes that
+  -- buffer when authentication fails (if its capacity suffices), and `segIndex` still names the old segment.
   let opsT := toks.filter (·.head? == some "op")
   if !opsT.isEmpty then
     let C := setup.ct.length
     let usable := openable setup.css setup.ct && !setup.openFails && !setup.emptyStored
     let ptLen : Int := (ptLenR setup.css C : Nat)
-    let mut pos : Int := 0            -- model position
+    let mut st : RState := {}          -- the model reader (`Pithos.Tink.rRead`); `st.pos` = model position
     let mut epos : Option Int := some 0   -- judge: the position the property expects (none = unspecified)
+    let mut failedBefore := false          -- judge: an earlier read on this reader reported an error
     let mut i := 0
     for t in opsT do
       match t with
       | ["op", "seek", wh, o, r] =>
         let off : Int := o.toInt!
+        let pos : Int := st.pos
         let abs : Int := if wh == "s" then off else if wh == "c" then pos + off else ptLen + off
         let mres := if !usable || abs < 0 then "err" else s!"{abs}"
-        if mres != r then div := div ++ [s!"op{i}:seek:model={mres},impl={r}"]
-        if mres != "err" then pos := abs
-        -- judge bookkeeping, from the property's point of view (plaintext length, not the reader's)
-        let eabs : Option Int := if wh == "s" then some off else if wh == "c" then epos.map (· + off) else some ((pt.length : Int) + off)
-        epos := match eabs with
-          | some a => if a < 0 || a > pt.length then none else some a
-          | none => none
-        if r == "err" then epos := none
+        if mres != r && !setup.unknown then div := div ++ [s!"op{i}:seek:model={mres},impl={r}"]
+        if mres != "err" then st := { st with pos := abs.toNat }
+        -- judge bookkeeping, from the property's point of view
+        if mutated then
+          -- the reader's idea of the length may be off (cut / extended ciphertext): the position it reports is
+          -- the plaintext offset its next bytes are claimed to come from
+          epos := if r == "err" then none else
+            let a := r.toInt!
+            if a < 0 || a > pt.length then none else some a
+        else
+          let eabs : Option Int := if wh == "s" then some off else if wh == "c" then epos.map (· + off) else some ((pt.length : Int) + off)
+          epos := match eabs with
+            | some a => if a < 0 || a > pt.length then none else some a
+            | none => none
+          if r == "err" then epos := none
       | ["op", "read", n, r] =>
         let nn := n.toNat!
-        let (mres, adv) : String × Nat :=
-          if !usable then ("err", 0)
-          else if pos ≥ ptLen then ("eof", 0)
+        let mut mres := "err"
+        if usable then
+          let (res, st') := rRead toy setup.keyOf fix fixBuf setup.css setup.ct nn st
+          st := st'
+          mres := match res with
+            | .bytes b => toHex b
+            | .eof => "eof"
+            | .err => "err"
+        if mres != r && !setup.unknown then div := div ++ [s!"op{i}:read:model={mres.take 20},impl={r.take 20}"]
+        if r == "err" then failedBefore := true
+        -- judge: the reads deliver the plaintext from the position on — after a mutation: or fail
+        match epos with
+        | none => pure ()
+        | some e =>
+          let want := (pt.drop e.toNat)
+          if r == "eof" then
+            if !mutated && !want.isEmpty then vio := vio ++ [("C16.seek-then-read-wrong-bytes", s!"op{i}:eof-at-{e}-of-{pt.length}")]
+          else if r == "err" then
+            if !mutated then vio := vio ++ [("C16.intact-part-failed-to-read", s!"op{i}")]
           else
-            let p := pos.toNat
-            let j := segFor setup.css p
-            match loadSeg toy setup.keyOf setup.css setup.ct j with
-            | none => ("err", 0)
-            | some seg =>
-              let chunk := (seg.drop (p - ptStart setup.css j)).take nn
-              (toHex chunk, chunk.length)
-        if mres != r then div := div ++ [s!"op{i}:read:model={mres.take 20},impl={r.take 20}"]
-        pos := pos + adv
-        -- judge: after a seek to a valid offset the reads deliver the plaintext from there on
-        if !mutated then
-          match epos with
-          | none => pure ()
-          | some e =>
-            let want := (pt.drop e.toNat)
-            if r == "eof" then
-              if !want.isEmpty then vio := vio ++ [("C16.seek-then-read-wrong-bytes", s!"op{i}:eof-at-{e}-of-{pt.length}")]
-            else if r == "err" then vio := vio ++ [("C16.intact-part-failed-to-read", s!"op{i}")]
+            let got := (unhex r).getD []
+            if got.isEmpty || got != want.take got.length then
+              if mutated then
+                let ctx := if failedBefore && path == "seek" then ".reader-used-after-failed-read" else ""
+                vio := vio ++ [("C16.tampered-part-read-wrong-bytes-without-error" ++ ctx, s!"op{i}:at-{e}")]
+              else vio := vio ++ [("C16.seek-then-read-wrong-bytes", s!"op{i}:at-{e}")]
+              epos := none
             else
-              let got := (unhex r).getD []
-              if got.isEmpty || got != want.take got.length then
-                vio := vio ++ [("C16.seek-then-read-wrong-bytes", s!"op{i}:at-{e}")]
-              else seeksJudged := seeksJudged + 1
+              seeksJudged := seeksJudged + 1
               epos := some (e + got.length)
       | _ => pure ()
       i := i + 1
   let vio' := vio.foldl (fun acc v => if acc.any (·.1 == v.1) then acc else acc ++ [v]) []
-  stats := addStats stats [("seek_reads_judged", seeksJudged), (s!"model_variant_eof{if fix then 1 else 0}_hdreof{if fixHdr then 1 else 0}_seqcut{if fixSeq then 1 else 0}", 1)]
+  stats := addStats stats [("seek_reads_judged", seeksJudged), (s!"model_variant_eof{if fix then 1 else 0}_hdreof{if fixHdr then 1 else 0}_seqcut{if fixSeq then 1 else 0}_buf{if fixBuf then 1 else 0}", 1)]
   return {
     diverge := div.take 5, violations := vio',
     nontrivial := !pt.isEmpty,
